@@ -638,3 +638,111 @@ def run_mcase(case):
         label_new(cx, doc)
         out.append(ON("op", [ob, snapshot(cx, doc)]))
     return ON("m", out)
+
+
+# ----------------------------------------------------------------------------- list-typed attribute views (C19)
+def lpred_fn(p, unwrap):
+    k = p[0]
+
+    def f(w):
+        v = unwrap(w)
+        if k == 'const':
+            return p[1]
+        if k == 'truthy':
+            return bool(v)
+        if k == 'eq':
+            return v == p[1]
+        if k == 'lt':
+            return isinstance(v, (int, float)) and not isinstance(v, bool) and v < p[1]
+        if k == 'is_bool':
+            return isinstance(v, bool)
+        raise ValueError(k)
+    return f
+
+
+def run_lcase(case):
+    import copy
+    from treepath import Document, attr_list_typed
+    case = copy.deepcopy(case)
+    cx = Ctx()
+    items = case['items']
+    doc = {'b': items}
+    cx.table, nxt = label_tree(items, cx.table, 1)            # the list itself gets label 1
+    vcounter = HIGH
+    mode = case.get('mode', 'custom')
+
+    class Elem(Document):
+        pass
+
+    if mode == 'doc':
+        class Owner(Document):
+            b = attr_list_typed(Elem, path.b)
+
+        def wrap(v):
+            return Elem(v)
+
+        def unwrap(w):
+            return w.data
+    else:
+        class Owner(Document):
+            b = attr_list_typed(tuple, path.b, to_wrapped_value=lambda j: ('T', j), to_json_value=lambda w: w[1])
+
+        def wrap(v):
+            return ('T', v)
+
+        def unwrap(w):
+            return w[1]
+    owner = Owner(doc)
+    held = owner.b
+    out = [snapshot(cx, doc['b'])]
+    keep = []
+    for op in case['ops']:
+        k = op[0]
+        fresh = op[-1] if isinstance(op[-1], bool) else False
+        view = owner.b if fresh else held
+        try:
+            if k == 'len':
+                ob = ON("len", [OZ(len(view))])
+            elif k == 'get':
+                ob = ON("get", [lval(cx, unwrap(view[op[1]]))])
+            elif k == 'set':
+                vcounter = label_value(cx, op[2], vcounter)
+                view[op[1]] = wrap(op[2])
+                ob = ON("set")
+            elif k == 'del':
+                keep.append(list(doc['b']))
+                del view[op[1]]
+                ob = ON("del")
+            elif k == 'in':
+                vcounter = label_value(cx, op[1], vcounter)
+                ob = ON("in", [obool(wrap(op[1]) in view)])
+            elif k == 'append':
+                vcounter = label_value(cx, op[1], vcounter)
+                view.append(wrap(op[1]))
+                ob = ON("append")
+            elif k == 'pop':
+                keep.append(list(doc['b']))
+                ob = ON("pop", [lval(cx, unwrap(view.pop(op[1])))])
+            elif k == 'iter':
+                it = iter(view)
+                xs = []
+                while True:
+                    try:
+                        xs.append(lval(cx, unwrap(next(it))))
+                    except StopIteration:
+                        break
+                ob = ON("iter", xs)
+            elif k == 'keep':
+                keep.append(list(doc['b']))
+                view.keep_all(lpred_fn(op[1], unwrap))
+                ob = ON("keep")
+            elif k == 'remove':
+                keep.append(list(doc['b']))
+                view.remove_all(lpred_fn(op[1], unwrap))
+                ob = ON("keep")
+            else:
+                raise ValueError(k)
+        except Exception as e:  # noqa
+            ob = ON({'remove': 'keep'}.get(k, k), [ON("raise", [oexn(e)])])
+        out.append(ON("op", [ob, snapshot(cx, doc['b'])]))
+    return ON("l", out)
